@@ -1793,8 +1793,13 @@ def _lincomb_impl(a, x1, b, x2, out):
     size = native(x1.size)
 
     if size < THRESHOLD_SMALL:
-        # Faster for small arrays
-        out.data[:] = a * x1.data + b * x2.data
+        # Faster for small arrays. Zero assignment is handled explicitly as
+        # in the other branches, such that non-finite entries (e.g. in
+        # uninitialized memory) do not propagate in `set_zero`.
+        if a == 0 and b == 0:
+            out.data[:] = 0
+        else:
+            out.data[:] = a * x1.data + b * x2.data
         return
 
     elif (size < THRESHOLD_MEDIUM or
